@@ -13,7 +13,7 @@ import (
 
 func init() {
 	Register(&Scenario{Prop: "C11", Name: "abort-then-retry", Run: scenC11, SoftParks: true, Weight: 1,
-		Rule: "source S with a chain or fork log of 2-6 entries and receiver R (ReplicationConcurrency in {1,2,32}; automatic replication switched off so that only explicit requests replicate); a sequence of 1-3 requests (Sync with its own context, or the blocking LoadMoreFrom), S possibly writing in between; ONE request is aborted at opportunity number j drawn per run, opportunities being counted as they occur: before the call, every arrival of one of R's goroutines at the hooks replicator.before-slot / after-dequeue / before-done / store.load-end, and every block request R registers; abort kind drawn per run: cancel the context, cancel it in the very quantum in which one of its block fetches completes, fail the block request (once, or 2-9 times in a row so that the retries of up to 8 later requests fail too), or let the virtual clock pass the context's deadline; parked goroutines and fetch completions are released in drawn order; finally an uncancelled Sync of S's current heads, issued once everything in flight has finished or failed, or (2 runs in 5) 0-12 kernel steps after the last request, while parked workers of the aborted request have not yet noticed that it is over; oracle: at rest R holds every entry of S's log; non-trivial = the abort really happened at an opportunity >= 1 while the request was in flight"})
+		Rule: "source S with a chain or fork log of 2-6 entries and receiver R (ReplicationConcurrency in {1,2,32}; automatic replication switched off so that only explicit requests replicate); a sequence of 1-3 requests (Sync with its own context, or the blocking LoadMoreFrom), S possibly writing in between; ONE request is aborted at opportunity number j drawn per run, opportunities being counted as they occur: before the call, every arrival of one of R's goroutines at the hooks replicator.before-slot / after-slot / after-dequeue / before-done / store.load-end, and every block request R registers; abort kind drawn per run: cancel the context, cancel it in the very quantum in which one of its block fetches completes, fail the block request (once, or 2-9 times in a row so that the retries of up to 8 later requests fail too), or let the virtual clock pass the context's deadline; parked goroutines and fetch completions are released in drawn order; finally an uncancelled Sync of S's current heads, issued once everything in flight has finished or failed, or (2 runs in 5) 0-12 kernel steps after the last request, while parked workers of the aborted request have not yet noticed that it is over; oracle: at rest R holds every entry of S's log; non-trivial = the abort really happened at an opportunity >= 1 while the request was in flight"})
 }
 
 func scenC11(k *K) {
@@ -34,7 +34,7 @@ func scenC11(k *K) {
 	rAddr := R.Address().String()
 	k.InstallHooks(func(pt string, owner interface{}) bool {
 		switch pt {
-		case "replicator.before-slot", "replicator.after-dequeue", "replicator.before-done", "store.load-end":
+		case "replicator.before-slot", "replicator.after-slot", "replicator.after-dequeue", "replicator.before-done", "store.load-end":
 			return OwnerStoreID(owner) == rAddr
 		}
 		return false
